@@ -106,7 +106,10 @@ def check(ctx):
             if S is None:
                 continue
             ok1, w1 = M.all_disj(S, lambda k: strip_refs(k)[0] == "call" and M.callee_matches(strip_refs(k)[1], "check_slot_expired"), {True})
-            none_rx = all(any(k[0] == "discr" and "receive_telegram" in show(k) and vs == ("in", frozenset(["None"])) for k, vs in fs.items()) for fs in S)
+            none_rx = all(any(k[0] == "discr" and strip_refs(k[1])[0] == "call" and "receive_telegram" in strip_refs(k[1])[1] and vs == ("in", frozenset(["None"]))
+                              for k, vs in fs.items()) for fs in S) and bool(S)  # tested directly on the PHY result
+            if not none_rx:
+                none_rx = nothing_received(P, tf, g, S)  # or encoded in the value the result was folded into
             ctx.ob("b.admission", "timeout-guard", ok1 and none_rx, "a time-out is delivered without (slot expired ∧ nothing received in this poll): " + w1, f.loc(b))
             marks = {(b, None): "timeout"}
             for ub, uc in uses:
@@ -179,6 +182,8 @@ def check(ctx):
         ctx.ob("e.expects-reply", "table", got == want, "RequestType::expects_reply table %s differs from the services without reply %s" % (got, SPEC["function_code"]["no_reply"]), ef.loc(0))
     sf = ctx.need_fn(CR, "fdl::telegram::TelegramTx::send_data_telegram")
     if sf is not None:
+        from analysis.inline import desugar
+        sf = desugar(P, sf)  # `cond.then_some(x)` / `opt.map(..)` are read as the branches they stand for
         g = GuardAnalysis(sf, P)
         tb = g.tb
         rows = {}
@@ -215,6 +220,48 @@ def check(ctx):
         for b, c in call_sites(f, lambda c: callee_is(c, "fdl::telegram::TelegramTxResponse::new")):
             a = tb.joperand(c["args"][1])
             ctx.ob("e.expects-reply", "no-reply|" + name, a[0] == "agg" and a[2] == "None", "%s must not expect a reply" % name, f.loc(b))
+
+
+def _shape(t):
+    """nested variant path of a constructed value: Ok(None) -> ("Ok", "None")"""
+    t = strip_refs(t)
+    if t[0] == "agg" and t[2] is not None:
+        return (t[2],) + (_shape(t[3][0]) if t[3] else ())
+    return ()
+
+
+def nothing_received(P, tf, g, S):
+    """the receive outcome is encoded in a value `receive_telegram(.., closure).unwrap_or(DEFAULT)`: "nothing received" holds on a path
+    class when the value is known to have DEFAULT's shape and the closure never returns a value of that shape"""
+    from analysis.query import return_terms
+    tb = g.tb
+    for b, c in call_sites(tf, lambda c: (c.get("callee") or "").endswith("Option::<T>::unwrap_or")):
+        U = tb.call_term(c)
+        X, D = strip_refs(U[2][0]), strip_refs(U[2][1])
+        if not (X[0] == "call" and "receive_telegram" in X[1]):
+            continue
+        dshape = _shape(D)
+        if not dshape:
+            continue
+        clo = [strip_refs(a) for a in X[2] if strip_refs(a)[0] == "agg" and str(strip_refs(a)[1]).startswith("closure:")]
+        cf = P.get(CR, clo[0][1][len("closure:"):]) if clo else None
+        if cf is None:
+            continue
+        rshapes = [_shape(t) for _, _, t in return_terms(cf, TermBuilder(cf, P))]
+        if any(not r or r[:len(dshape)] == dshape[:len(r)] for r in rshapes):
+            continue  # the closure may produce the default's shape itself: the value does not tell the cases apart
+        ok = bool(S)
+        for fs in S:
+            cur = U
+            for v in dshape:
+                vs = fs.get(("discr", cur))
+                if vs != ("in", frozenset([v])):
+                    ok = False
+                    break
+                cur = ("field", ("dc", cur, v), "0")
+        if ok:
+            return True
+    return False
 
 
 if __name__ == "__main__":
